@@ -439,6 +439,8 @@ where
         if self.is_closed.load(Ordering::SeqCst) {
             return Ok(());
         }
+        #[cfg(transparencies_stretto_verif)]
+        crate::verif::yield_point("clear:after_check");
 
         self.clear_in()
     }
@@ -509,6 +511,8 @@ where
         if self.is_closed.load(Ordering::SeqCst) {
             return Ok(());
         }
+        #[cfg(transparencies_stretto_verif)]
+        crate::verif::yield_point("wait:after_check");
 
         let wg = WaitGroup::new();
         self.insert_buf_tx
